@@ -61,6 +61,13 @@ type HistInput struct {
 	// bits set on EVERY query event of the history (the session's settings)
 	QVars  []ref.StatusVar `json:"q_vars,omitempty"`
 	QFlags uint16          `json:"q_flags,omitempty"`
+	// EvFlags: header flag bits set on every event of the files (not on the
+	// format descriptions); RowFlags: flag bits of the rows-event bodies (besides
+	// STMT_END_F); Stamps: the header timestamps of the events are replaced, in
+	// turn, by these values
+	EvFlags  uint16   `json:"ev_flags,omitempty"`
+	RowFlags uint16   `json:"row_flags,omitempty"`
+	Stamps   []uint32 `json:"stamps,omitempty"`
 	Global *ref.Cfg        `json:"global,omitempty"`
 }
 
@@ -126,6 +133,28 @@ func (in HistInput) build() *ref.History {
 				q.Vars = vars
 				ne.Query = &q
 				ne.Flags |= in.QFlags
+				f.Events[i] = &ne
+			}
+		}
+		h.Layout()
+	}
+	if in.EvFlags != 0 || in.RowFlags != 0 || len(in.Stamps) > 0 {
+		k := 0
+		for _, f := range h.Files {
+			for i, e := range f.Events {
+				ne := *e
+				ne.Flags |= in.EvFlags
+				if ne.Kind == ref.ARows && in.RowFlags != 0 {
+					rs := *ne.Rows
+					rs.Flags |= in.RowFlags
+					ne.Rows = &rs
+				}
+				if len(in.Stamps) > 0 && ne.Kind != ref.AHeartbeat {
+					ne.TS = in.Stamps[k%len(in.Stamps)]
+					if ne.Kind == ref.AQuery || ne.Kind == ref.AXID {
+						k++ // one value per statement / commit, its table maps and rows share it
+					}
+				}
 				f.Events[i] = &ne
 			}
 		}
@@ -575,6 +604,25 @@ func runC02(r *chk.Run) {
 		}
 	}
 	r.Sample("noise", map[string]interface{}{"base_units": base, "insert": "each of " + strings.Join(NoiseUnits, ",") + " before every event index"})
+	// (2b) transactions without changes next to every kind of unit that commits itself
+	Sequences([]string{"txE", "txEX", UDDL, UAutoRows, UTxXID, USet, UStmtOut, UTxRollback}, 3, func(seq []string) {
+		has := false
+		for _, u := range seq {
+			has = has || u == "txE" || u == "txEX"
+		}
+		if has {
+			hr.add(HistInput{Units: append([]string{}, seq...), Cfg: cfgA, LockStep: true})
+		}
+	})
+	// ... and every DDL text of the generator (stored programs whose bodies hold
+	// BEGIN / COMMIT / START TRANSACTION among them) between two transactions
+	for k := 0; k < 12; k++ {
+		units := []string{UTxXID}
+		for j := 0; j <= k; j++ {
+			units = append(units, UDDL)
+		}
+		hr.add(HistInput{Units: append(units, UTxCommit, UAutoRows), Cfg: cfgA, LockStep: true})
+	}
 	// (3) all sequences up to the depth over the boundary alphabet, lock-step;
 	// all sequences up to depth 3 also with the master far ahead and in the old-format configuration
 	count := 0
